@@ -773,6 +773,11 @@ def main(argv=None):
     except Undecided as e:
         print('UNDECIDED property=%s: %s' % (pid, e))
         rc = 2
+    except Exception as e:      # an internal error of the machinery is never a verdict
+        import traceback
+        traceback.print_exc()
+        print('UNDECIDED property=%s: internal error of the driver: %r' % (pid, e))
+        rc = 2
     finally:
         run.cleanup()
     return rc
@@ -834,7 +839,9 @@ def _main(a, pid, run, seed, t0):
         list(ex.map(lambda x: build_one(run, x[0], x[1]), insts))
 
     for kf in findings:
-        info = run.inst_built[(kf['inst'], tuple(kf.get('defines', ())))]
+        info = run.inst_built.get((kf['inst'], tuple(kf.get('defines', ()))))
+        if info is None:
+            raise Undecided('extraction of inst %s failed: %s' % (kf['inst'], getattr(run, '_build_failed', {}).get((kf['inst'], tuple(kf.get('defines', ()))), '?')[-1500:]))
         verdict, out, _ = native_replay(run.work, info, kf['entry'], hdrs[kf['inst']], [(kf['witness'], kf.get('ghosts', {}))],
                                         os.path.join(VERIF, 'spec', kf['inst'] + '.h'))
         if verdict == 'confirmed':
